@@ -1309,6 +1309,35 @@ pub fn drive_c10(a: &Args) {
         k += chunk;
     }
     results.extend(run_replace_jobs(dirty, subjects.clone(), repls.clone(), seed ^ 77, a.thorough()));
+    // the same small scope over letters at the boundaries of narrower character types (0 / 0x80, 0x7F / 0x80,
+    // 0xFF / 0x100, 0xFFFF / 0x10000, the last two characters): depth <= 1 patterns, every subject up to length 3
+    let mut next_id = njobs;
+    for (la, lb) in [(0u32, 0x80u32), (0x7F, 0x80), (0xFF, 0x100), (0xFFFF, 0x10000), (MAX_CHAR - 1, MAX_CHAR)] {
+        let atoms2 = vec![T::Eps, T::Chr(la), T::Chr(lb), T::Rng(la.min(lb), la.max(lb)), T::AllChar, T::All];
+        let pats2: Vec<T> = depth1(&atoms2).into_iter().filter(|t| !t.has_quot()).map(|t| t.smt_form()).filter(|t| t.cost() <= COST_LIMIT).collect();
+        let mut subj2: Vec<Vec<u32>> = vec![vec![]];
+        let mut fr: Vec<Vec<u32>> = vec![vec![]];
+        for _ in 0..3 {
+            let mut nx = vec![];
+            for w in &fr {
+                for &c in &[la, lb] {
+                    let mut x = w.clone();
+                    x.push(c);
+                    nx.push(x);
+                }
+            }
+            subj2.extend(nx.iter().cloned());
+            fr = nx;
+        }
+        let items: Vec<(usize, T, bool)> = pats2
+            .into_iter()
+            .enumerate()
+            .filter(|(i, _)| a.thorough() || i % 2 == (a.seed as usize) % 2)
+            .map(|(i, t)| (next_id + i, t, true))
+            .collect();
+        next_id += 1000;
+        results.extend(run_replace_jobs(items, subj2, vec![vec![], vec![88], vec![la, lb]], seed ^ la as u64, a.thorough()));
+    }
     for v in results {
         out.emit(v);
     }
